@@ -528,7 +528,17 @@ func (g *GoBackNConn) receivePacketsForever() error { // nolint:gocyclo
 			g.pongTicker.Pause()
 		}
 
-		g.resendTicker.Reset(g.timeoutManager.GetResendTimeout())
+		// Only feedback on our own packets restarts the resend timeout.
+		// Data (or pings) from the peer says nothing about the packets
+		// we still have in flight: if it also restarted the timeout, a
+		// peer that keeps sending more often than the resend timeout
+		// would keep a lost packet of ours from ever being resent.
+		switch msg.(type) {
+		case *PacketACK, *PacketNACK:
+			g.resendTicker.Reset(
+				g.timeoutManager.GetResendTimeout(),
+			)
+		}
 
 		switch m := msg.(type) {
 		case *PacketData:
